@@ -171,15 +171,28 @@ def run(chk):
                 return r.value
         return None
 
+    # (Table.__getattr__ / __getitem__ are decided on the interpreted accessors - tablesim, reported under C14 R1t and here as
+    # R2v; their constructor calls are only read when that is not possible)
+    table_decided = False
+    try:
+        from ..tablesim import table_scenarios as _tsc
+
+        for acc, desc, ok_, detail in _tsc(repo):
+            if acc in ("Table.__getattr__", "Table.__getitem__"):
+                chk.ob("R2v", tb, tb.func(acc), f"{acc} interpreted: {desc}", ok_, f"column access on a table: {detail}")
+        table_decided = True
+    except (AnalysisError, _SB9i, _PR9i, KeyError) as e:
+        chk.undecided.append(f"R2v: the Table accessors could not be interpreted ({str(e)[:120]})")
+    _obt = chk.ob if not table_decided else (lambda *a, **k: None)
     cc = _col_ctor(ga)
     # Col(name, self._ast, <uuid looked up by the *name* in name_to_uuid>, ..): the identity comes from the cache's name map
     good_ga = cc is not None and norm(cc.args[0]) == "name" and norm(cc.args[1]) == "self._ast" and "name_to_uuid[name]" in norm(cc.args[2]).replace(" ", "") and "_uuid" in norm(cc.args[2])
-    chk.ob("R2", tb, ga, "Table.__getattr__: Col(name, self._ast, cache uuid, dtype, ftype) of the *visible* column", good_ga,
+    _obt("R2", tb, ga, "Table.__getattr__: Col(name, self._ast, cache uuid, dtype, ftype) of the *visible* column", good_ga,
            "t.x no longer hands out the identity recorded in the cache")  # fmt: skip
     cc = _col_ctor(gi)
     # Col(<current name looked up by key._uuid in uuid_to_name>, self._ast, key._uuid, ..)
     good_gi = cc is not None and "uuid_to_name[key._uuid]" in norm(cc.args[0]).replace(" ", "") and norm(cc.args[2]) == "key._uuid"
-    chk.ob("R2", tb, gi, "Table.__getitem__(Col): same identity, current name", good_gi,
+    _obt("R2", tb, gi, "Table.__getitem__(Col): same identity, current name", good_gi,
            "derived[t.x] no longer reports the current name under the same identity")  # fmt: skip
 
     # ---- R3: both expression compilers interpreted on a column whose *stored* name differs from its current one: the data is
